@@ -31,6 +31,19 @@ pub const DECORATIONS: &[(&str, &str)] = &[
     ("annotation-after-the-space-glued-to-next", "@note"),
 ];
 
+/// Decided from the language's token rules alone, never by asking the lexer under test: does this decoration certainly
+/// leave the neighbouring tokens as they are? (An inline annotation is `@` + letters, digits and `_`; a line annotation
+/// runs to the end of its line; blanks and tabs between two tokens that already had a blank between them change nothing.)
+/// `false` means "not sure": then the old rule applies and the real lexer's token list decides whether the rewrite is judged.
+fn certainly_keeps_tokens(name: &str, next_text: &str) -> bool {
+    let next_continues_a_name = next_text.chars().next().map(|c| c.is_alphanumeric() || c == '_' || c == '@').unwrap_or(true);
+    match name {
+        "wide-space" | "tab" | "space-tab-space" | "annotation" | "comment-line" | "annotation-before-the-space" | "annotation-after-the-space" => true,
+        "annotation-glued-to-next" | "annotation-after-the-space-glued-to-next" => !next_continues_a_name,
+        _ => false,
+    }
+}
+
 fn tok_class(t: &Tok) -> &'static str {
     match t {
         Tok::Atom("Identifier", _) => "identifier",
@@ -229,6 +242,11 @@ impl C18Check {
                     ctx.nontrivial(fnv(format!("{}#{}#{}", base_text, at, name).as_bytes()));
                 }
                 let var = observe(&var_text, Some(&toks), input_ids);
+                if matches!(var, Err("layout-merge")) && certainly_keeps_tokens(name, &toks[at].text()) {
+                    // the token rules say the neighbours are untouched, the lexer returned other tokens
+                    ctx.fail(format!("layout:{}:{}:tokens-differ", name, key), format!("{:?} is accepted, in its rewrite {:?} the lexer no longer returns the same significant tokens", base_text, var_text));
+                    continue;
+                }
                 compare(name, &key, &base_text, &base, &var_text, var, ctx);
             }
         }
